@@ -9,6 +9,7 @@ var borrowed = []struct{ dst, src, engine string }{
 	{"C02", "C15", "coop"}, // flow rule switches under live traffic
 	{"C13", "C15", "coop"}, // concurrent loads / clears: reported == enforced
 	{"C14", "C15", "coop"}, // an unchanged rule must stay in force while the list is being rebuilt
+	{"C07", "C15", "coop"}, // concurrent loads of the system rule set: what is remembered as loaded is what gates inbound traffic
 	{"C03", "C12", "coop"}, // the breaker's state machine under concurrent callers
 	{"C02", "C09", "coop"}, // the window a reject rule reads must not lose / invent tokens around a bucket rollover
 	{"C16", "C01", "par"},  // "told of completion exactly once" also when Exit is called from two goroutines at once
